@@ -200,14 +200,13 @@ A `make`, index, slice or destination-size site that an idiom or the allow list 
 accepted *for the size / index expression that was reviewed*.  The expressions are regenerated
 and compared here: editing one (a scratch buffer of a fixed size instead of one sized from the
 packet, say) resurfaces the site for review even though the new form may look harmless to the
-idioms. -/
+idioms.  Index / slice operations that the range analysis proves in range on every run
+(`Generated.C09.derivedSites`, round D) are not part of this list: they are re-proved, not
+reviewed, so renaming their operands or moving them into a helper changes nothing here. -/
 theorem C09_accepted_sizes_reviewed :
     XmppModel.Generated.C09.acceptedSizes = [
   ("xmpp.(*stanzaEncoder).EncodeToken", "make", "make([]xml.Attr, 0, len(tok.Attr) + 2)"),
   ("xmpp.(*stanzaEncoder).EncodeToken", "make", "make([]xml.Attr, 0, len(tok.Attr))"),
-  ("xmpp.(*Session).SendIQ", "index(allow)", "start.Attr[idx]"),
-  ("xmpp.(*Session).SendMessage", "index(allow)", "start.Attr[idx]"),
-  ("xmpp.(*Session).SendPresence", "index(allow)", "start.Attr[idx]"),
   ("disco.walkItem", "index(allow)", "items[itemIdx]"),
   ("disco.walkItem", "slice(allow)", "items[last + 1:]"),
   ("disco.appendItems", "index(allow)", "items[itemIdx]"),
@@ -217,10 +216,7 @@ theorem C09_accepted_sizes_reviewed :
   ("ibb.handlePayload", "slice(allow)", "data[:n]"),
   ("attr.randomID", "make(allow)", "make([]byte, (n / 2) + (n & 1))"),
   ("attr.randomID", "slice(allow)", "fmt.Sprintf(\"%x\", b)[:n]"),
-  ("marshal.(*elementWriter).EncodeToken", "make", "make([]xml.Attr, 0, len(ew.start.Attr) + len(tok.Attr))"),
-  ("mux.(*bufReader).Token", "index(allow)", "r.buf[o]"),
-  ("roster.(*itemMarshaler).Token", "index(allow)", "m.items[0]"),
-  ("roster.(*itemMarshaler).Token", "slice(allow)", "m.items[1:]")] := by decide +kernel
+  ("marshal.(*elementWriter).EncodeToken", "make", "make([]xml.Attr, 0, len(ew.start.Attr) + len(tok.Attr))")] := by decide +kernel
 
 /-! ## Handler locks and the transport; request contexts
 
